@@ -44,8 +44,30 @@ Definition as_num (v : val) : option num :=
   end.
 Definition ret_num (n : num) : option val := match n with NErr => None | _ => Some (VN n) end.
 
+(* named binary kernels of sc3.base.builtins (p.round(x), bi.round(a, b), ...): regenerated definitions *)
+Inductive kname := KRound | KRoundup | KTrunc | KThresh | KClip2 | KWrap2 | KFold2 | KExcess | KScaleneg
+                 | KAmclip | KRing1 | KRing2 | KRing3 | KRing4 | KDifsqr | KSumsqr | KSqrsum | KSqrdif | KAbsdif.
 Inductive bop := BAdd | BSub | BMul | BDiv | BFloordiv | BMod | BMin | BMax
-               | BLt | BLe | BGt | BGe | BEq | BNe.
+               | BLt | BLe | BGt | BGe | BEq | BNe
+               | BPow | BShl | BShr | BAnd | BOr | BXor | BNamed (k : kname).
+Definition kernel (k : kname) : num -> num -> num :=
+  match k with
+  | KRound => py_round | KRoundup => py_roundup | KTrunc => py_trunc | KThresh => py_thresh
+  | KClip2 => py_clip2 | KWrap2 => py_wrap2 | KFold2 => py_fold2 | KExcess => py_excess
+  | KScaleneg => py_scaleneg | KAmclip => py_amclip
+  | KRing1 => py_ring1 | KRing2 => py_ring2 | KRing3 => py_ring3 | KRing4 => py_ring4
+  | KDifsqr => py_difsqr | KSumsqr => py_sumsqr | KSqrsum => py_sqrsum | KSqrdif => py_sqrdif
+  | KAbsdif => py_absdif
+  end.
+(* operator.pow with an int exponent (float exponents are outside the model) *)
+Definition npow (a b : num) : num :=
+  match a, b with
+  | I x, I y => if (0 <=? y)%Z then I (x ^ y)%Z
+                else if (x =? 0)%Z then NErr else F (Qpower (inject_Z x) y)
+  | F x, I y => if ((y <? 0)%Z && Qeq_bool x 0)%bool then NErr else F (Qpower x y)
+  | _, _ => NErr
+  end.
+Definition nbitxor := lift2 (fun x y => I (Z.lxor x y)) (fun _ _ => NErr).
 Inductive uop := UNeg | UAbs.
 Inductive nop := NClip | NWrap | NFold.
 Inductive fname := FInc | FDbl | FNeg | FPair | FEven | FLt3 | FPos | FBoom.   (* FBoom: raises a BaseException *)
@@ -62,6 +84,10 @@ Definition binop (o : bop) (a b : val) : option val :=
     | BLt => Some (VB (nlt x y)) | BLe => Some (VB (nle x y))
     | BGt => Some (VB (ngt x y)) | BGe => Some (VB (nge x y))
     | BEq => Some (VB (neqb x y)) | BNe => Some (VB (nneqb x y))
+    | BPow => ret_num (npow x y)
+    | BShl => ret_num (nshl x y) | BShr => ret_num (nshr x y)
+    | BAnd => ret_num (nbitand x y) | BOr => ret_num (nbitor x y) | BXor => ret_num (nbitxor x y)
+    | BNamed k => ret_num (kernel k x y)
     end
   | _, _ => None
   end.
